@@ -84,6 +84,9 @@ def cases(tier, seed):
             case["barefields"] = h % 2 == 0
         if h % 6 == 5:
             case["shared_file"] = True
+        if h % 8 == 6 and "via" not in case and "nested" not in case:
+            case["reuse_dtypes"] = True
+            case["inputs"] = [[[p[0], p[1]] + [v + 200 for v in p[2:]] for p in px] for px in case["inputs"]]   # beyond int8
         yield "mg.merge", case
     # (3) values near the limits of the value dtype: the exact aggregate or an error, never something else
     for h in range(60 if tier == "quick" else 600):
